@@ -44,9 +44,11 @@ def rule_key(rule, path, msg, out):
             form = "not-v4"
         return "invalid-emitted:%s:%s" % (rule, form)
     if rule in ("object-ref-unresolved", "object-ref-type"):
-        comps = [c for c in path.split(".") if c]
-        # objects.<key>.<prop> is a property of the container member itself; anything deeper sits in an embedded object or extension
-        return "invalid-emitted:%s:%s" % (rule, "nested-in-embedded-or-extension" if len([c for c in comps if not c.startswith("[")]) > 3 else "member-property")
+        comps = [c for c in path.split(".") if c and not c.startswith("[")]
+        if comps[:1] == ["objects"]:
+            comps = comps[2:]      # objects.<key>.  (a bare observable parsed on its own has no such prefix)
+        # <prop> is a property of the observable itself; anything deeper sits in an embedded object or extension
+        return "invalid-emitted:%s:%s" % (rule, "nested-in-embedded-or-extension" if len(comps) > 1 else "member-property")
     if rule == "unknown-extension":
         return "invalid-emitted:unknown-extension" + (":extension-definition-in-2.0" if "'extension-definition--" in msg else "")
     if rule == "out-of-range":
